@@ -4,6 +4,7 @@ import (
 	"fmt"
 	"go/token"
 	"go/types"
+	"sort"
 	"strings"
 
 	"aghverif/core"
@@ -17,6 +18,7 @@ func init() {
 		Run: runC19,
 		Explanation: "Safe-browsing / parental lookups. Decided: (D1) privacy: the message handed to the lookup upstream is built only from constants, the configured TXT suffix and hex encodings of h[:k] where h is a SHA-256 sum and k a constant not larger than 2; the host name parameter reaches the outgoing question by no other route (everything derived from it passes through sha256.Sum256 first); the cache is keyed by the same 2-byte slice; " +
 			"(D2) the verdict compares full 32-byte hashes; (D3) cache transparency, structural part: the hash lists written to the cache come only from the hashes decoded from this response (never filtered against the asked names, never carried over from an older cache entry), negative entries are nil lists; an expired entry is treated as absent. " +
+			"(D4) every call in CheckHost that passes the name on passes the lower-cased name, so safe-browsing and parental lookups hash the canonical spelling whether or not rule filtering is enabled. " +
 			"Not decided: label enumeration (last four labels, ICANN suffix cut), malformed TXT handling, transparency over all lookup histories.",
 		RuleText:    "Backward provenance slices (interprocedural inside the package) with sha256.Sum256 as the sanitiser; constant slice bounds; comparison operand types.",
 		Assumptions: []string{"crypto/sha256, encoding/hex and miekg/dns SetQuestion behave as documented", "debug logging of the host name is not a disclosure to the lookup service"},
@@ -167,6 +169,7 @@ func runC19(c *Ctx) {
 	}
 
 	c19Cache(c)
+	c19Normalised(c)
 }
 
 // prefixSlice: v is x[:k] (low nil or 0) with constant k <= max over a
@@ -274,4 +277,58 @@ func c19Cache(c *Ctx) {
 	off, ns := core.UnguardedSinks(fc, core.IsCallTo(false, "filtering/hashprefix.findMatch"), gFresh)
 	r.Check(nF > 0 && ns > 0 && len(off) == 0, "C19-D3", "expired-entry-never-decides", p.FnPos(fc),
 		"a cached entry contributes to the verdict only while it has not expired", "an expired cache entry can still decide the verdict", traceOf(p, off)...)
+}
+
+// c19Normalised: D4.  The hash of a name is computed from the bytes handed to
+// the checker; the service lists lower-case names and the public-suffix test
+// is case-sensitive.  Every host checker (safe browsing and parental included,
+// which do not depend on rule filtering being enabled) must therefore receive
+// the lower-cased name: in CheckHost no call receives the raw parameter.
+func c19Normalised(c *Ctx) {
+	p, r := c.P, c.R
+	fn := p.Fn("(*filtering.DNSFilter).CheckHost")
+	if fn == nil || len(fn.Params) < 2 {
+		r.Undecided("C19-D4", "CheckHost", "-", "anchor not found")
+		return
+	}
+	host := fn.Params[1]
+	stop := func(v ssa.Value) string {
+		if call, ok := v.(*ssa.Call); ok && core.CalleeKey(call.Common()) == "strings.ToLower" {
+			return "lower"
+		}
+		return ""
+	}
+	n := 0
+	var bad []string
+	for _, call := range core.Calls(fn) {
+		if call.Key == "strings.ToLower" {
+			continue
+		}
+		args := call.Common.Args
+		for _, a := range args {
+			if bt, ok := a.Type().Underlying().(*types.Basic); !ok || bt.Kind() != types.String {
+				continue
+			}
+			raw, low := false, false
+			for _, o := range core.Origins(a, core.ProvOpts{Prog: p, Stop: stop, Transparent: map[string]bool{}}) {
+				if o.Kind == "param" && o.Val == ssa.Value(host) {
+					raw = true
+				}
+				if o.Kind == "stop" {
+					low = true
+				}
+			}
+			if !raw && !low {
+				continue
+			}
+			n++
+			if raw {
+				bad = append(bad, fmt.Sprintf("%s at %s can receive the name as the client spelled it", call.Key, p.InstrPos(call.Instr)))
+			}
+		}
+	}
+	sort.Strings(bad)
+	r.Check(n >= 2 && len(bad) == 0, "C19-D4", "checkers-get-lower-cased-name", p.FnPos(fn),
+		fmt.Sprintf("all %d calls that pass the name on in CheckHost pass the lower-cased name", n),
+		"a checker can receive the name in the client's spelling: a mixed-case query for a listed name is hashed differently (other prefixes are sent, the verdict is 'not listed', and that is cached)", bad...)
 }
